@@ -457,5 +457,7 @@ MANIFEST = {
 def extra_validation():
     """enumeration (labelled): layout-sensitive neighbours parsed in sequence by one parser"""
     seqs = [['size("a  b")', 'size("a b")'], ["x // c\n + 1", "x // c + 1"], ["'a\tb' + 'a b'", "'a b' + 'a b'"], ["1 +\n2", "1 + 2", "1  +  2"],
-            ["a ? b : c", "a ? b :c", "a?b:c"], ['"x  " + y', '"x " + y', '"x" + y'], ["f(a, b) // t\n.g()", "f(a, b) // t .g()"], ["[1, 2][0]", "[1,2] [0]"]]
+            ["a ? b : c", "a ? b :c", "a?b:c"], ['"x  " + y', '"x " + y', '"x" + y'], ["f(a, b) // t\n.g()", "f(a, b) // t .g()"], ["[1, 2][0]", "[1,2] [0]"],
+            ["1 // one\n + 2 // two\n + 4"], ["// lead\n1 + 2 // trail"], ["x > 1 // lo\n && x < 10 // hi"], ["a // 1\n// 2\n// 3\n+ b"], ["f(a, // x\n b // y\n)"],
+            ["1 // one\n\n + 2 // two"], ["// only a comment\n// and another\nx"]]
     return [{"check": "c06.layout_sequence", "args": {"texts": t}} for t in seqs]
